@@ -23,7 +23,7 @@ RULE = ("case = one history over one parsec context: 1..5 epochs (context_start 
         "taskpool_test and context_test calls, bodies spinning 0..3000 iterations, under a generated scheduler x 1..16 threads, "
         "many histories per process (same context); oracle on global sequence stamps: at context_wait return every pool added "
         "(transitively) in the epoch has run each task exactly once, all body exits and the completion callback are stamped "
-        "earlier; at taskpool_wait(p) return the same for p; a PTG pool's callback runs exactly once and after its last body "
+        "earlier (callback entered AND returned); at taskpool_wait(p) return the same for p; a PTG pool's callback runs exactly once and after its last body "
         "exit (DTD: every callback after the last body exit); context_start/context_wait return success; non-trivial = >= 2 "
         "epochs AND a pool added from a task or callback AND a pool of >= 20 tasks AND threads >= 2; distinct = distinct texts")
 FLOOR_QUICK = 60
@@ -182,7 +182,7 @@ def judge(h, evs):
     v = []
     evs = sorted(evs)
     pools = h["pools"]
-    body_in, body_out, cbs, adds = {}, {}, {}, {}
+    body_in, body_out, cbs, adds, cbx = {}, {}, {}, {}, {}
     for (s, t, p, i) in evs:
         if t == 1:
             body_in.setdefault(p, {}).setdefault(i, []).append(s)
@@ -192,6 +192,8 @@ def judge(h, evs):
             cbs.setdefault(p, []).append(s)
         elif t == 4:
             adds.setdefault(p, []).append(s)
+        elif t == 8:
+            cbx.setdefault(p, []).append(s)
 
     def complete_before(p, R, what):
         n = ntasks(pools[p])
@@ -204,9 +206,10 @@ def judge(h, evs):
             if not outs or outs[0] > R:
                 v.append("%s returned (stamp %d) before task %d of pool %d finished (%s)" % (what, R, i, p, "exit stamp %d" % outs[0] if outs else "never exited"))
                 return
-        c = [s for s in cbs.get(p, []) if s < R]
+        c = [s for s in cbx.get(p, []) if s < R]
         if not c:
-            v.append("%s returned (stamp %d) before the completion callback of pool %d ran (%s)" % (what, R, p, cbs.get(p, [])))
+            v.append("%s returned (stamp %d) before the completion callback of pool %d had run to its end (entered %s, returned %s)"
+                     % (what, R, p, cbs.get(p, []), cbx.get(p, [])))
 
     # (c) callbacks
     for p, pd in pools.items():
